@@ -288,7 +288,7 @@ func bBind(intp *Interpreter) error {
 	if !ok {
 		return intp.e(eTypecheck, "bind: needs a procedure, not %T", obj)
 	}
-	intp.bindProc(obj)
+	intp.bindProc(obj, make(map[*Object]bool))
 	return nil
 }
 
@@ -1388,7 +1388,15 @@ func equal(a, b Object) (bool, error) {
 	return a == b, nil
 }
 
-func (intp *Interpreter) bindProc(proc Procedure) {
+// bindProc implements the bind operator.  The map `seen` records the
+// procedures which are already being processed, so that procedures which
+// (directly or indirectly) contain themselves are visited only once.
+func (intp *Interpreter) bindProc(proc Procedure, seen map[*Object]bool) {
+	if len(proc) == 0 || seen[&proc[0]] {
+		return
+	}
+	seen[&proc[0]] = true
+
 	for i, elem := range proc {
 		switch obj := elem.(type) {
 		case Operator:
@@ -1401,10 +1409,7 @@ func (intp *Interpreter) bindProc(proc Procedure) {
 				proc[i] = val
 			}
 		case Procedure:
-			// be careful to avoid infinite loops
-			proc[i] = nil
-			intp.bindProc(obj)
-			proc[i] = obj
+			intp.bindProc(obj, seen)
 		}
 	}
 }
